@@ -254,6 +254,29 @@ CATALOGUE = [
     B("c10-float-index", "C10", "src/pyunicorn/funcnet/coupling_analysis.py",
       "lagfuncs[range(N), range(N), 0] = 0.", "lagfuncs[range(N), range(N), 0.] = 0.",
       "float-index"),
+    B("c16-es-nonstrict", "C16", ES, "        Ayx = (dstxy2 < 0) * (dstxy2 >= -tau2)",
+      "        Ayx = (dstxy2 <= 0) * (dstxy2 >= -tau2)", "E4/EventSeries.event_synchronization"),
+    B("c16-es-double", "C16", ES,
+      "        countyx = np.sum(Ayx) + 0.5 * eqtime - 0.5 * countyxdouble",
+      "        countyx = np.sum(Ayx) + 0.5 * eqtime - 0.5 * countxydouble",
+      "E4/EventSeries.event_synchronization"),
+    B("c16-eca-slice", "C16", ES,
+      "            np.any(((-dst - lag >= 0) * (-dst - lag <= taumax))\n                   [:dst.shape[0] - n12, :], axis=1))",
+      "            np.any(((-dst - lag >= 0) * (-dst - lag <= taumax))\n                   [:dst.shape[0] - n11, :], axis=1))",
+      "E4/EventSeries.event_coincidence_analysis"),
+    B("c16-eca-lag-hoist", "C16", ES,
+      "        dst = (np.array([e1] * l2).T - np.array([e2] * l1))\n\n        if window_type",
+      "        dst = (np.array([e1] * l2).T - np.array([e2] * l1)) - lag\n\n        if window_type",
+      "E4/EventSeries._eca_coincidence_rate"),
+    B("c16-eca-norm", "C16", ES,
+      "                np.float32(coincidence21) / (l2 - n21 - n22))",
+      "                np.float32(coincidence21) / (l2 - n21 - n12))",
+      "E4/EventSeries._eca_coincidence_rate/return"),
+    T("c16-eca-commute", "C16", ES,
+      "        dst = (np.array([e1] * l2).T - np.array([e2] * l1))\n\n        if window_type",
+      "        dst = -np.array([e2] * l1) + np.array([e1] * l2).T\n\n        if window_type"),
+    T("c16-es-flip-cmp", "C16", ES, "        Ayx = (dstxy2 < 0) * (dstxy2 >= -tau2)",
+      "        Ayx = (-tau2 <= dstxy2) * (0 > dstxy2)"),
     B("c16-registry-swap", "C16", ES, "'max': EventSeries._symmetrization_max,",
       "'max': EventSeries._symmetrization_min,", "registry/max"),
     B("c16-new-key", "C16", ES, "'min': EventSeries._symmetrization_min\n        }",
